@@ -19,7 +19,10 @@ def deductive(tier="quick", seed=0):
     stab_tasks = SS.tasks(Call) + TS.gate_tasks(Call) + [t for t in TC.tasks(Call) if "z_measurement" in t.label or "reset_z" in t.label] \
         + [t for t in TS.linalg_tasks(Call)]
     d3 = run_tasks(stab_tasks)
-    d = merge(d1, d2, d3)
+    from contracts import compile_loop as CL
+
+    d4 = run_tasks(CL.tasks())
+    d = merge(d1, d2, d3, d4)
     d.obligations.extend(pauli_tables.obligations())
     d.obligations.extend(sums.prove_sum_ext())
     can = run_tasks(TS.canary_tasks(Call))
@@ -33,7 +36,9 @@ def deductive(tier="quick", seed=0):
         "[B-only] density_matrix/functions.py builders (get_one_qubit_gate, get_two_qubit_controlled_gate, projectors_zbasis, "
         "get_reset_qubit_kraus, create_n_product_state) and DensityMatrix.apply_unitary/apply_channel/apply_measurement denote the "
         "textbook operators: decided by the bounded stand-in only (tokens in the dispatch proof)",
-        "[B-only] CompilerBase.compile loop and CircuitDAG.sequence(unwrapped=True): bounded stand-in only in this round",
+        "[A] CircuitDAG.sequence(unwrapped=True) returns the operations in a topological order with wrappers expanded "
+        "(its contract; C12/C20) - an abstract sequence in the proof of CompilerBase.compile; compile with an initial_state "
+        "argument: bounded stand-in only",
     ]
     d.not_applicable_clauses += ["floating-point accuracy of the computed density matrix (S3)"]
     return d
